@@ -115,6 +115,30 @@ func classifyEnum(c *Ctx, pk, typ string) *enumShape {
 				}
 			}
 		}
+		// second loop form: the mask itself is the induction variable (mask := 1; mask < 1<<N; mask <<= 1)
+		var maskPhi *ssa.Phi
+		if p, isPhi := iv.(*ssa.Phi); isPhi && len(p.Edges) == 2 {
+			one, shl := false, false
+			for _, e := range p.Edges {
+				if k, isK := constInt(e); isK && k == 1 {
+					one = true
+				}
+				if b, isB := e.(*ssa.BinOp); isB && b.Op == token.SHL && b.X == ssa.Value(p) {
+					if k, isK := constInt(b.Y); isK && k == 1 {
+						shl = true
+					}
+				}
+			}
+			if one && shl {
+				maskPhi = p
+				// number of masks visited: 1, 2, 4 … below (or up to) the bound
+				bound, n := es.N, int64(0) // es.N holds K (or K+1 for <=) here: masks m with m < es.N
+				for mk := int64(1); mk > 0 && mk < bound; mk <<= 1 {
+					n++
+				}
+				es.N = n
+			}
+		}
 		if es.N < 0 {
 			es.undec = "bit loop bound not found"
 			return es
@@ -122,7 +146,11 @@ func classifyEnum(c *Ctx, pk, typ string) *enumShape {
 		// mask = E(1 << i); test (e & mask) == mask; lookup labels[mask]
 		maskS := typ + "((1 << " + ex(iv) + "))"
 		maskS2 := short + "." + maskS
-		if s := ex(lk.Index); s != maskS && s != maskS2 && s != "(1 << "+ex(iv)+")" {
+		if maskPhi != nil {
+			if lk.Index != ssa.Value(maskPhi) {
+				es.probs = append(es.probs, "label looked up for "+ex(lk.Index)+" instead of the single-bit mask of the loop")
+			}
+		} else if s := ex(lk.Index); s != maskS && s != maskS2 && s != "(1 << "+ex(iv)+")" {
 			es.probs = append(es.probs, "label looked up for "+s+" instead of the single-bit mask 1<<i")
 		}
 		okTest := false
@@ -133,6 +161,14 @@ func classifyEnum(c *Ctx, pk, typ string) *enumShape {
 			}
 			if strings.HasPrefix(s, "((recv & ") && strings.Contains(s, "(1 << ") && strings.HasSuffix(s, ") != 0)") {
 				okTest = true
+			}
+			if b, isB := iff.Cond.(*ssa.BinOp); isB && maskPhi != nil && (b.Op == token.EQL || b.Op == token.NEQ) {
+				// (e & mask) == mask   /   (e & mask) != 0
+				if and, isAnd := b.X.(*ssa.BinOp); isAnd && and.Op == token.AND && ex(and.X) == "recv" && and.Y == ssa.Value(maskPhi) {
+					if k, isK := constInt(b.Y); (b.Op == token.EQL && b.Y == ssa.Value(maskPhi)) || (b.Op == token.NEQ && isK && k == 0) {
+						okTest = true
+					}
+				}
 			}
 		}
 		if !okTest {
